@@ -1,8 +1,8 @@
 """C02 — Heat-bath diagonal update yields the same equilibrium as the default update (partial: see design_notes/C02.md)."""
-from checks import kern
+from checks import kern, law_audits
 from checks import pure_fns
-LEAN_TARGETS = ["QmcProps.C02", "drv_c02"]
-BINS = ["c02", "kern"]
+LEAN_TARGETS = ["QmcProps.C02", "drv_c02", "drv_c17"]
+BINS = ["c02", "kern", "c17"]
 
 THEOREMS = [
     "heatbath_ratio_real_table",
@@ -26,6 +26,8 @@ RULE = ("tables: random sequences of make_*interaction (1-4 variables; 3-/4-vari
         "pairs: two Ising samplers in a TemperingContainer (same edges and signs, different |J|, Gamma, |h|, heat-bath toggled on either) and two generic samplers with equal interaction lists: "
         "set_enable_heatbath / steps / swap_manager_and_state in both call directions / tempering_step with a scripted container RNG (accepted swaps) interleaved, each sampler's table compared after every call with the table of its OWN Hamiltonian; "
         "sweeps: (1/8 of the Ising samplers carry the operator string of such a partner after an odd number of swaps) exact trajectory of single_diagonal_step / diagonal_update on warmed-up samplers, heat-bath on (3/4) and off, replayed by the model; "
+        "(a third of the Ising strings are re-installed through FastOps::new_from_ops from their sparse (p, op) list before the step; get_n() must equal the scanned count after install and after every sweep); "
+        "energy: heat-bath (5/6) runs through timesteps / timesteps_sample / timesteps_measure / timesteps_sample_iter / timesteps_measure_with_self with sampling_freq None/1/2/3/5, returned energy vs -(sum n over SAMPLED steps/#sampled)/beta + offset of a manual timestep/get_n loop on a clone with the same RNG words (1e-12), plus the C17 measuring-loop modes; "
         "prob: threshold bisection of attempt / bond / rejection words of a random empty slot inside a public diagonal step (prefix scripted so that "
         "earlier removals change n) and of the removal word in the next sweep; oracle on measured numbers: p_insert/p_remove = beta*w/(L-n). "
         "Non-trivial = every case (each has at least one operation / visited slot); distinct = distinct input line.")
@@ -40,7 +42,14 @@ def main(ck):
         ck.correspond("table-invariant-under-swaps", "drv_c02", ck.harness("c02", ["pairs"]))
         ck.correspond("sampler-sweeps", "drv_c02", ck.harness("c02", ["sweeps"]))
         ck.correspond("sampler-probabilities", "drv_c02", ck.harness("c02", ["prob"]))
+        # the reported energy (part of the statement): heat-bath runs through every measuring API vs a manual step/get_n loop,
+        # plus the measuring-loop modes of C17 (cadence and true average over the SAMPLED steps)
+        ck.correspond("reported-energy-heatbath", "drv_c02", ck.harness("c02", ["energy"]))
+        ck.correspond("energy-measuring-loop", "drv_c17", ck.harness("c17", ["measure"]))
+        ck.correspond("energy-measuring-loop-ising", "drv_c17", ck.harness("c17", ["ising"]))
+        ck.correspond("energy-measuring-loop-generic", "drv_c17", ck.harness("c17", ["generic"]))
         kern.run(ck, "heatbath")   # exact one-step kernels of the real code on tiny systems: pi K = pi
     ck.assumptions.append("partial: ergodicity/convergence of the chain and the SSE representation theorem (weight -> thermal state) are mathematics outside the model; "
                           "Lean carries the per-slot ratio / detailed balance for every weight table and the table-validity invariant")
+    law_audits.run(ck, groups=['refine', 'ideal', 'heatbath', 'good'])   # idealised law of the executable model = the Markov kernel of the invariance theorems
     return ck.finish(RULE)
